@@ -417,7 +417,7 @@ func (g *gen) leafField(nc nameCol, k kind, inPtrEmb bool) reflect.StructField {
 			auto = true
 		}
 	}
-	if simple && k.wrap == "plain" && !inPtrEmb && r.Chance(1, 5) {
+	if (simple || (k.class == "bytes" && len(k.tags) == 0)) && k.wrap == "plain" && !inPtrEmb && r.Chance(1, 5) {
 		tags = append(tags, "not null")
 		feat("notnull")
 	}
